@@ -239,6 +239,7 @@ DTYPES = [
     ('float64', None), ('float64', None), ('float32', None),
     ('int32', None), ('int16', ('_FillValue', -999)), ('int32', ('missing_value', -99999)),
     ('int32', ('_FillValue', 0)), ('int32', ('missing_value', -99999, 'pyint')),
+    ('uint32', None),
 ]
 DTYPES_WITH_DATETIME = DTYPES + [('datetime64[ns]', None)]
 
@@ -272,6 +273,8 @@ def add_variables(model, rng, *, per_kind=(1, 2), extras=(), max_extra=3, dtypes
                 dtype = 'float64'
             if dtype == 'int16' and canon.max() >= 32000:
                 dtype = 'int32'
+            if dtype == 'uint16' and canon.max() >= 65000:
+                dtype = 'uint32'
             can_miss = dtype.startswith('float') or dtype.startswith('datetime64') or fill is not None
             if can_miss and missing > 0:
                 # missing values are static per cell for half the variables, scattered for the rest
